@@ -524,6 +524,33 @@ theorem accept_loop_survives_errors (rs : List AcceptRes) (h : AcceptRes.closed 
 theorem priming_releases_root_lock (found configured : Nat) : (primingTail found configured).2 = false := by
   unfold primingTail; split <;> rfl
 
+/-- **The connection cap counts exactly the open connections** (`tcpEngine.active`, the same
+protocol as the zone limiter: an over-cap arrival is refused without being counted): for every
+history of arrivals and departures the counter equals the connections registered, never exceeds the
+cap, and once everybody has left the next client is admitted. -/
+theorem tcp_conn_cap_counts_connections (cap : Nat) (ops : List ZOp) :
+    let z := ops.foldl (ZL.step cap) {}
+    z.count = z.held ∧ z.count ≤ cap ∧ (z.held = 0 → 0 < cap → (z.enter cap).2 = true) :=
+  zone_limiter_counts_in_flight cap ops
+
+/-- **Every client message id maps to a configured outbound address**: `0 ≤ index < n` for all
+65536 ids, whatever the number of configured addresses. -/
+theorem dialer_index_in_range (n reqid : Nat) (hn : 0 < n) (hid : reqid < 65536) : dialerIndex n reqid < n := by
+  unfold dialerIndex
+  apply Nat.div_lt_of_lt_mul
+  calc n * reqid < n * 65536 := Nat.mul_lt_mul_of_pos_left hid hn
+    _ = 65536 * n := Nat.mul_comm _ _
+
+/-- **A refill is refused only when the buffer is full of unread bytes**: with any room left
+(`unread < size`) and bytes ready, `fillMore` reads at least one byte — wherever in the buffer the
+unread tail lies, flush against its end included. -/
+theorem fill_more_has_room (size start e avail : Nat) (h : e - start < size) (ha : 0 < avail) :
+    ∃ r, fillMore size start e avail = some (0, r) ∧ 0 < r := by
+  unfold fillMore
+  have : ¬ (e - start = size) := by omega
+  simp only [this, if_false]
+  exact ⟨_, rfl, by omega⟩
+
 /-! ## Resolver.groupLookup: a failed leader's error stays local -/
 
 /-- **Request-local leader errors are not handed to followers.**  A caller
@@ -630,6 +657,9 @@ example : serveFrameTokens (fun l => l ≥ 2048) (tcpLarge 2048) ⟨4, 2⟩ ⟨4
 example : frameDeadline 9000 1200 = 10200 := by decide
 example : acceptLoop [.err false false, .conn, .err true true, .err false true, .conn] = 2 := by decide
 example : primingTail 1 2 = (false, false) ∧ primingTail 2 2 = (true, false) := by decide
+example : dialerIndex 1 65535 = 0 ∧ dialerIndex 3 65535 = 2 ∧ dialerIndex 3 0 = 0 := by decide
+-- a frame straddling the end of the 4 KB buffer: 50 unread bytes flush against the end are moved to the front
+example : fillMore 4096 4046 4096 5000 = some (0, 4046) ∧ fillMore 4096 0 4096 10 = none := by decide
 -- quota 2: two admitted, two shed, both leave: the counter is back at zero and the zone is open again
 example :
     let z := [ZOp.enter, .enter, .enter, .enter, .leave, .leave].foldl (ZL.step 2) {}
